@@ -221,6 +221,25 @@ def carried_channels(repo: Repo, eff: Effects, f: Func, loop: ast.For, cls: Opti
                                     mutated.setdefault(b, []).append(("callee %s mutates its `%s`" % (t.name, mu.root[2:]), n.lineno, arg))
                             elif mu.root.startswith("A:"):
                                 mutated.setdefault("self." + mu.root[2:], []).append(("callee %s mutates self.%s" % (t.name, mu.root[2:]), n.lineno, n))
+    # a name bound inside the body to an object that lives outside it (x = shared; x = shared if c else fresh) is that object
+    outside_alias: Dict[str, Set[str]] = {}
+    for s_ in loop.body:
+        for n in ast.walk(s_):
+            if isinstance(n, ast.Assign) and len(n.targets) == 1 and isinstance(n.targets[0], ast.Name):
+                cands = []
+                v = n.value
+                if isinstance(v, ast.Name):
+                    cands = [v]
+                elif isinstance(v, ast.IfExp):
+                    cands = [x for x in (v.body, v.orelse) if isinstance(x, ast.Name)]
+                elif isinstance(v, ast.BoolOp):
+                    cands = [x for x in v.values if isinstance(x, ast.Name)]
+                for cnd in cands:
+                    if cnd.id not in body_assigned and cnd.id not in induction:
+                        outside_alias.setdefault(n.targets[0].id, set()).add(cnd.id)
+    for name in list(mutated):
+        for src in outside_alias.get(name, ()):
+            mutated.setdefault(src, []).extend([("through its alias `%s`: %s" % (name, k), ln, nd) for k, ln, nd in mutated[name]])
     for name, events in sorted(mutated.items()):
         if name in body_assigned or name in induction:
             continue  # created inside the iteration
